@@ -150,6 +150,7 @@ type Extension struct {
 	EKU        []string   `json:",omitempty"`
 	Adm        *Admission `json:",omitempty"`
 
+	NullBody bool  `json:",omitempty"` // rendered as "kind: null" (YAML "- kind:") instead of an object
 	Optional *bool `json:",omitempty"` // profile only
 	Override *bool `json:",omitempty"`
 }
